@@ -146,7 +146,7 @@ theorem C09_std_tickToPrice_mirror_eps (pool : Pool) (t : Int) (hd : pool.decFac
 /-! ### amounts -/
 
 /-- `get_amount0` in the exact context is `l · 2^96 · (1/sa − 1/sb) / 10^d` whether the liquidity is an `int` or a `Decimal` -/
-theorem amount0Gen_exact (sa sb : Nat) (l : Int) (dec : Bool) (d : Nat) (h : sa ≤ sb) (ha : sa ≠ 0) :
+theorem c09_amount0Gen_exact (sa sb : Nat) (l : Int) (dec : Bool) (d : Nat) (h : sa ≤ sb) (ha : sa ≠ 0) :
     amount0Gen NumCtx.exact sa sb l dec d = (l : Rat) * q96R * (1 / (sa : Rat) - 1 / (sb : Rat)) / ((pow10 d : Nat) : Rat) := by
   have hsa : (sa : Rat) ≠ 0 := by exact_mod_cast ha
   have hsb : (sb : Rat) ≠ 0 := by
@@ -168,7 +168,7 @@ theorem amount0Gen_exact (sa sb : Nat) (l : Int) (dec : Bool) (d : Nat) (h : sa 
     unfold q96R; field_simp
 
 /-- `get_amount1` in the exact context is `l · (sb − sa) / 2^96 / 10^d` -/
-theorem amount1Gen_exact (sa sb : Nat) (l : Int) (dec : Bool) (d : Nat) (h : sa ≤ sb) :
+theorem c09_amount1Gen_exact (sa sb : Nat) (l : Int) (dec : Bool) (d : Nat) (h : sa ≤ sb) :
     amount1Gen NumCtx.exact sa sb l dec d = (l : Rat) * ((sb : Rat) - (sa : Rat)) / q96R / ((pow10 d : Nat) : Rat) := by
   have hsort : sortPair sa sb = (sa, sb) := by unfold sortPair; rw [if_neg (by omega)]
   unfold amount1Gen
@@ -193,7 +193,7 @@ theorem C09_std_amount1_mirror_eps (sa sb sa' sb' : Nat) (l : Int) (dec : Bool) 
     (h : sa ≤ sb) (h' : sa' ≤ sb') (ha : sa ≠ 0) :
     amount1Gen NumCtx.exact sa' sb' l dec d = amount0Gen NumCtx.exact sa sb l dec d +
       (l : Rat) * ((((sa : Rat) * sb' - 2 ^ 192) / sa) - (((sb : Rat) * sa' - 2 ^ 192) / sb)) / q96R / ((pow10 d : Nat) : Rat) := by
-  rw [amount1Gen_exact _ _ _ _ _ h', amount0Gen_exact _ _ _ _ _ h ha]
+  rw [c09_amount1Gen_exact _ _ _ _ _ h', c09_amount0Gen_exact _ _ _ _ _ h ha]
   have hsa : (sa : Rat) ≠ 0 := by exact_mod_cast ha
   have hsb : (sb : Rat) ≠ 0 := by
     have : sb ≠ 0 := by omega
@@ -212,7 +212,7 @@ theorem C09_std_amount0_mirror_eps (sa sb sa' sb' : Nat) (l : Int) (dec : Bool) 
       (l : Rat) * q96R * ((sb : Rat) / ((sb : Rat) * sa') - (sa : Rat) / ((sa : Rat) * sb')) / ((pow10 d : Nat) : Rat) ∧
     amount1Gen NumCtx.exact sa sb l dec d =
       (l : Rat) * q96R * ((sb : Rat) / 2 ^ 192 - (sa : Rat) / 2 ^ 192) / ((pow10 d : Nat) : Rat) := by
-  rw [amount0Gen_exact _ _ _ _ _ h' ha', amount1Gen_exact _ _ _ _ _ h]
+  rw [c09_amount0Gen_exact _ _ _ _ _ h' ha', c09_amount1Gen_exact _ _ _ _ _ h]
   have hsa : (sa : Rat) ≠ 0 := by exact_mod_cast ha
   have hsb : (sb : Rat) ≠ 0 := by
     have : sb ≠ 0 := by omega
